@@ -17,6 +17,7 @@ import (
 	"context"
 	"errors"
 	"fmt"
+	"os"
 	"sort"
 	"strings"
 	"sync"
@@ -266,6 +267,22 @@ func serverCheck(pm *openfgav1.AuthorizationModel, tuples, ctxT []fga.Tuple, rq 
 	return cls, fallback, reasons
 }
 
+// mgErrKind classifies why the weighted graph could not be built (every such model is served by the
+// default engine through the fallback).
+func mgErrKind(err error) string {
+	switch {
+	case errors.Is(err, errConstraintTupleCycle):
+		return "tuplecycle-and-butnot"
+	case errors.Is(err, fmtErrTupleCycle):
+		return "tuplecycle-unresolved"
+	case errors.Is(err, errModelCycle):
+		return "modelcycle"
+	case errors.Is(err, errInvalidModel):
+		return "invalidmodel"
+	}
+	return "other"
+}
+
 func dashJoin(xs []string, sep string) string {
 	if len(xs) == 0 {
 		return "-"
@@ -309,6 +326,16 @@ func exec(line string, st *hx.Stats) string {
 		var d1 string
 		d1, d1err = runV2(mg, ds, "default", 1, rq, ctxT, &fgarun.ForcedPlanner{Want: "default", Offered: offered})
 		graphDump = dumpGraph(mg, userType)
+		if os.Getenv("C03_PROBE_GRAPH") != "" {
+			for i := 0; i < 6; i++ {
+				mg2, err2 := modelgraph.New(pm)
+				if err2 != nil || dumpGraph(mg2, userType) != graphDump {
+					st.Inc("graph-nondeterministic")
+					out = append(out, "gnd 1")
+					break
+				}
+			}
+		}
 		out = append(out, "d1 "+d1)
 		st.Inc("v2:" + d1)
 		many := func(strategy string, breadth, reps int) string {
@@ -334,12 +361,10 @@ func exec(line string, st *hx.Stats) string {
 		}
 		sort.Strings(off)
 		out = append(out, "off "+dashJoin(off, ","))
-	case errors.Is(mgErr, fmtErrTupleCycle):
-		out = append(out, "mg tuplecycle")
-		st.Inc("mg:tuplecycle")
 	default:
-		out = append(out, "mg error")
-		st.Inc("mg:error")
+		k := mgErrKind(mgErr)
+		out = append(out, "mg "+k)
+		st.Inc("mg:" + k)
 	}
 	sc, fb, reasons := serverCheck(pm, tuples, ctxT, rq)
 	out = append(out, "srv "+sc, fmt.Sprintf("fb %d", b2i(fb)), "log "+dashJoin(reasons, ","))
